@@ -237,7 +237,7 @@ pub fn run_sub(sub: &SubCheck, tier: Tier, seed: u64) -> SubOutcome {
     };
     // The number of shards is fixed (not the machine's core count) so that a run is a pure
     // function of code, tier and seed.
-    let shards = 16u64;
+    let shards = 64u64;
     let per_shard = total.div_ceil(shards).max(1);
     let stop = AtomicBool::new(false);
     let merged = Mutex::new((Stats::default(), Vec::<Failure>::new()));
